@@ -77,6 +77,11 @@ def child(mode, req, tmp):
     return json.loads(p.stdout)
 
 
+def older_schema(store):
+    """a legacy file of an older schema, which PeeweeStorage.__init__ upgrades in place whenever it opens it"""
+    return bool(store.get("old_schema")) or c14_gen.raw_older_schema(store.get("raw"))
+
+
 def pw_file(testing):
     return "peewee-sqlite" + ("-testing" if testing else "") + ".v2.db"
 
@@ -96,7 +101,8 @@ BDATA = [None, {}, {"k": "v"}, {"k": {"n": [1, 2, {"z": None}]}, "ü": "é"}, {"
 EDATA = [{}, {"app": "a"}, {"app": "b", "title": "x"}, {"n": 1}, {"n": 1.0}, {"n": True}, {"u": "ünï中😀"},
          {"nested": {"l": [1, [2, 3], {"k": None}]}}, {"title": "q'uote\"s \\ and\nnewline"}, {"big": "y" * 300}]
 CREATED = ["2020-01-01T00:00:00+00:00", "2020-01-01T05:00:00+02:00", "2021-06-30T23:59:59.123456+00:00",
-           "2019-12-31T19:00:00-05:00", "2020-01-01T00:00:00"]
+           "2019-12-31T19:00:00-05:00", "2020-01-01T00:00:00", "2020-03-04T05:06:07Z", "2020-03-04 05:06:07+00:00",
+           "2020-03-04T05:06:07.5+00:00"]
 DURS = [0, 0, 1000, 500_000, SEC, SEC, 2 * SEC, 1_500_000, 1, 1001, 25 * 3600 * SEC, 123_456]
 TZS = [0, 0, 0, 120, -300, 330]
 
@@ -122,25 +128,35 @@ def gen_store(rng, big=False):
     for b in ids:
         ops.append(create(b, rng.choice(STRS), rng.choice(STRS), rng.choice(STRS), rng.choice(CREATED),
                           rng.choice(NAMES), rng.choice(BDATA)))
+    per = []
     for b in ids:
         k = rng.random()
         if k < 0.12:
             continue
+        mine = []
         n = rng.choice([1, 2, 3, 5, 8, 13, 40]) if not big else rng.choice([99, 100, 101, 150, 200, 201, 300])
         pool = sorted(rng.sample(range(0, 40), rng.choice([3, 6, 12]))) + [86_400_000]
         left = n
         while left > 0:
             m = min(left, rng.choice([1, 1, 2, 7, 120, 300]))
             if m == 1 and rng.random() < 0.5:
-                ops.append(["insert", b, ev(rng, pool)])
+                mine.append(["insert", b, ev(rng, pool)])
             else:
-                ops.append(["insert_many", b, events(rng, m, pool)])
+                mine.append(["insert_many", b, events(rng, m, pool)])
             left -= m
             r = rng.random()
             if r < 0.15:
-                ops.append(["delete", b, rng.randrange(0, 50)])
+                mine.append(["delete", b, rng.randrange(0, 50)])
             elif r < 0.25:
-                ops.append(["replace", b, rng.randrange(0, 50), ev(rng, pool)])
+                mine.append(["replace", b, rng.randrange(0, 50), ev(rng, pool)])
+        per.append(mine)
+    if rng.random() < 0.5:
+        # the rows of a bucket lie between other buckets' rows (each bucket's own ops stay in order)
+        while any(per):
+            q = rng.choice([x for x in per if x])
+            ops.append(q.pop(0))
+    else:
+        ops += [o for x in per for o in x]
     if ids and rng.random() < 0.25:
         b = rng.choice(ids)
         ops.append(["update", b, rng.choice([None, "t2"]), rng.choice([None, "c2"]), None,
@@ -161,6 +177,102 @@ def mk_case(kind, new_testing, stores, custom=None, pre_sqlite=False, stray=(), 
     if session is not None:
         c["session"] = session
     return c
+
+
+# -- round 5: the same legacy content in shapes the schema allows and today's writer never produces ------------
+# (store field "raw": steps of harness/c14_gen.apply_raw, run with plain sqlite3 on the finished legacy file)
+
+PAGE_SIZES = [512, 1024, 2048, 8192, 16384, 65536]
+
+
+def random_raw(rng, session=False, order_keeping=False, p=1.0):
+    """0-3 rewrite steps (at most one per kind, at most one timestamp form; the journal mode last)"""
+    # the file as the released code would have left it (rows copied into a new file with the released schema)
+    first = [["rebuild"]] if rng.random() < 0.35 else []
+    if rng.random() >= p:
+        return first
+    G = c14_gen
+    menu = [lambda: ["bucket_empty_data", rng.choice(sorted(G.EMPTY_FORMS))],
+            lambda: ["bucket_empty_data", "null"],
+            lambda: ["bucket_json", rng.choice(G.JSON_STYLES)],
+            lambda: ["event_json", rng.choice(G.JSON_STYLES), rng.choice([1, 1, 2, 3, 7]), rng.randrange(7)],
+            lambda: ["created"] + [rng.choice(G.CREATED_FORMS) for _ in range(rng.choice([1, 2, 3]))],
+            lambda: rng.choice([["ts_T"], ["ts_frac6"]] if order_keeping else
+                               [["ts_T"], ["ts_frac6"], ["ts_mixed_T", rng.choice([2, 3])], ["ts_Z", rng.choice([1, 2])],
+                                ["ts_offset", rng.choice([1, 2, 5])]]),
+            lambda: ["id_shift", rng.choice([7, 1000, 1 << 40])],
+            lambda: ["key_shift", rng.choice([10, 1000])],
+            lambda: ["journal", "delete" if session else rng.choice(["delete", "wal", "wal"])],
+            lambda: ["page_size", rng.choice(PAGE_SIZES)],
+            lambda: ["auto_vacuum", rng.choice([1, 2])],
+            lambda: rng.choice([["user_version", rng.choice([1, 2, 7])], ["application_id", 0x41574442], ["schema_cookie", rng.choice([1, 9])]]),
+            lambda: rng.choice([["extra_table"], ["extra_column"], ["churn", rng.choice([50, 400])], ["orphans", rng.choice([1, 5])]])]
+    if not order_keeping:
+        menu += [lambda: ["id_reverse"], lambda: ["extra_index"]]
+    steps = []
+    for f in rng.sample(menu, rng.choice([1, 1, 2, 3])):
+        st = f()
+        if all(st[0] != x[0] and not (st[0].startswith("ts_") and x[0].startswith("ts_"))
+               and not ({st[0], x[0]} == {"id_shift", "id_reverse"}) for x in steps):
+            steps.append(st)
+    return first + sorted(steps, key=lambda x: x[0] == "journal")
+
+
+def raw_base_store(t, raw):
+    """buckets with and without data / name / events, unicode, ties, equal rows, an id hole, rows of one bucket between
+    another's"""
+    e = lambda i, d, x, tz=0: [BASE + i * SEC // 2, d, x, tz]  # noqa: E731
+    ops = [create("b", na=None, da=None), create("bé中", "値", "c", "höst", CREATED[1], "", {}),
+           create("c", "ty", "cl", "", CREATED[2], "nm", BDATA[3]), create("no-events", cr=CREATED[4], da=BDATA[4]),
+           ["insert_many", "b", [e(0, 0, {}), e(1, SEC, {"u": "ünï中😀"}, 120), e(2, 1_500_000, {"app": "b", "title": "x"}),
+                                 e(3, 2 * SEC, {"n": 1.0}, -300)]],
+           ["insert_many", "c", [e(0, 0, {"i": 1}), e(0, 0, {"i": 1}), e(2, SEC, {"z": 1, "a": 2})]],
+           ["insert_many", "b", [e(4, 1, {"n": True}), e(5, 10, EDATA[8]), e(6, 90_000 * SEC + 250_000, EDATA[7], 330)]],
+           ["insert", "bé中", [BASE + 5000, 3 * SEC, {"app": "a"}, 0]], ["insert", "b", [BASE + 1000, SEC, {"b": 1, "a": 2}, 0]],
+           ["delete", "b", 2], ["insert", "c", e(9, SEC // 4, {"title": "é"})]]
+    return {"testing": t, "ops": ops, "raw": raw}
+
+
+def raw_corpus(rng):
+    G = c14_gen
+    variants = [("raw-released-file", [["rebuild"]]), ("raw-bucket-data-null", [["bucket_empty_data", "null"]]), ("raw-bucket-data-empty", [["bucket_empty_data", "empty"]])]
+    variants += [("raw-json-" + st, [["bucket_json", st], ["event_json", st, 1 + k % 2, k]]
+                  + ([["bucket_empty_data", st]] if st in G.EMPTY_FORMS else [])) for k, st in enumerate(G.JSON_STYLES)]
+    variants += [("raw-timestamp-T", [["ts_T"]]), ("raw-timestamp-fraction", [["ts_frac6"]]), ("raw-timestamp-mixed-T", [["ts_mixed_T", 2]]),
+                 ("raw-timestamp-Z", [["ts_Z", 1]]), ("raw-timestamp-some-offsets", [["ts_offset", 2]]),
+                 ("raw-ids-shifted", [["id_shift", 1000], ["key_shift", 40]]), ("raw-ids-reversed", [["id_reverse"]]),
+                 ("raw-journal-delete", [["journal", "delete"]]), ("raw-journal-wal", [["journal", "wal"]]),
+                 ("raw-page-size-512", [["page_size", 512], ["auto_vacuum", 1]]), ("raw-page-size-1024", [["page_size", 1024]]),
+                 ("raw-page-size-65536", [["auto_vacuum", 2], ["page_size", 65536]]),
+                 ("raw-header-fields", [["user_version", 7], ["application_id", 0x41574442], ["schema_cookie", 5], ["churn", 300],
+                                        ["id_shift", 1 << 40]]),
+                 ("raw-extra-table-column", [["extra_table"], ["extra_column"]]), ("raw-extra-index", [["extra_index"]]),
+                 ("raw-orphan-events", [["orphans", 4]]),
+                 ("raw-all", [["rebuild"], ["bucket_empty_data", "null"], ["bucket_json", "compact"], ["event_json", "utf8", 2, 1],
+                              ["created"] + G.CREATED_FORMS[2:6], ["ts_T"], ["id_shift", 99], ["key_shift", 5], ["extra_column"],
+                              ["extra_table"], ["user_version", 2], ["journal", "wal"], ["journal", "delete"], ["page_size", 1024]]),
+                 ("raw-all-wal", [["bucket_empty_data", "empty"], ["event_json", "reversed", 1, 0], ["created", "Z", "space-utc"],
+                                  ["ts_offset", 1], ["churn", 60], ["page_size", 8192], ["journal", "wal"]])]
+    # an older schema: peewee's own indexes are missing; PeeweeStorage.__init__ (create_table(safe=True)) adds them
+    variants += [("old-schema-no-index", [["drop_index", n] for n in ("eventmodel_timestamp", "eventmodel_bucket_id", "bucketmodel_id")])]
+    out = []
+    for k, (kind, raw) in enumerate(variants):
+        t = k % 2 == 0
+        out.append(mk_case(kind, t, [raw_base_store(t, raw)]))
+    # `created` of every bucket in another textual form of the same instant
+    for t in (True, False):
+        forms = G.CREATED_FORMS if t else list(reversed(G.CREATED_FORMS))
+        ops = [create(f"b{i}", cr=CREATED[i % len(CREATED)], da=BDATA[i % len(BDATA)]) for i in range(len(forms) + 2)]
+        ops.append(["insert_many", "b0", events(rng, 3)])
+        out.append(mk_case("raw-created-forms", t, [{"testing": t, "ops": ops, "raw": [["created"] + forms]}]))
+    # the other profile's legacy file in another shape (must stay untouched as well), ours as written
+    out.append(mk_case("raw-other-profile", True, [raw_base_store(False, [["bucket_empty_data", "null"], ["journal", "wal"]]),
+                                                   {"testing": True, "ops": [create("mine"), ["insert_many", "mine", events(rng, 2)]]}]))
+    return out
+
+
+def store_raw(case, t):
+    return [st for s in case["stores"] if s["testing"] == t for st in (s.get("raw") or [])]
 
 
 # -- large buckets (the copy may read a bucket in several pieces: by count, by instant, by day ..) ----------
@@ -217,7 +329,7 @@ def big_cases(rng, tier):
     out = []
     for n in sizes:
         t = rng.random() < 0.5
-        out.append(mk_case("big-dense", t, [{"testing": t, "ops": big_store(rng, n)}]))
+        out.append(mk_case("big-dense", t, [{"testing": t, "ops": big_store(rng, n), "raw": random_raw(rng, order_keeping=True, p=0.5)}]))
     wide = [rng.randrange(300, 900)] if tier == "quick" else [400, 1200, 3000]
     for n in wide:
         t = rng.random() < 0.5
@@ -406,6 +518,8 @@ def session_cases(rng, n, use=False):
             stores = [{"testing": t, "ops": gen_store(rng)}]
         else:
             stores = [{"testing": not t, "ops": gen_store(rng)}]
+        for st in stores:
+            st["raw"] = random_raw(rng, session=True, p=0.4)
         steps = []
         names = []
         profiles = [t, not t] if rng.random() < 0.75 else [t]
@@ -501,6 +615,8 @@ def random_cases(rng, n):
         else:
             out.append(mk_case("random-custom", t, [{"testing": t, "ops": gen_store(rng)}], custom="elsewhere.db"))
             continue
+        for st in stores:
+            st["raw"] = random_raw(rng, p=0.45)
         stray = []
         if rng.random() < 0.15:
             stray = rng.sample(["readme.txt", "peewee-sqlite.v1.db", "sqlite.v0.db", "peewee.v2.db", "x.v2.db",
@@ -544,6 +660,12 @@ def run_cases(cases, tmp, procs=12):
                 open(p, "w").close()
         runs[i]["before"] = legacy_prints(runs[i]["xdg"])
         runs[i]["listing_before"] = listing(runs[i]["xdg"])
+        # a copy of every (small) legacy file, so that a change can be reported row by row
+        keep = os.path.join(runs[i]["xdg"], "legacy-before")
+        os.makedirs(keep, exist_ok=True)
+        for f, fp in runs[i]["before"].items():
+            if fp["size"] <= 2_000_000:
+                shutil.copy2(os.path.join(d, f), os.path.join(keep, f))
 
     def mig(i):
         # phase 2: the call under test, one fresh interpreter per case
@@ -559,7 +681,7 @@ def run_cases(cases, tmp, procs=12):
         runs[i]["mig"] = r
         runs[i]["after"] = legacy_prints(runs[i]["xdg"])
         runs[i]["listing_after"] = listing(runs[i]["xdg"])
-        if any(s.get("old_schema") and s["testing"] == cases[i]["new_testing"] for s in cases[i]["stores"]):
+        if any(older_schema(s) and s["testing"] == cases[i]["new_testing"] for s in cases[i]["stores"]):
             runs[i]["legacy_after_dump"] = child("dump", {"xdg": runs[i]["xdg"], "testing": cases[i]["new_testing"]}, tmp)
 
     def whole(i):
@@ -784,9 +906,15 @@ def oracle(case, run):
     m = run["mig"]
     t = case["new_testing"]
     # the legacy file itself is left untouched (every legacy file in the directory)
-    old_schema = {pw_file(s["testing"]) for s in case["stores"] if s.get("old_schema")}
+    old_schema = {pw_file(s["testing"]) for s in case["stores"] if older_schema(s)}
+    shape = {pw_file(s["testing"]): s["raw"] for s in case["stores"] if s.get("raw")}
     for f, fp in run["before"].items():
         af = run["after"].get(f)
+        how = f" (the legacy file had been rewritten with plain sqlite3, same content: {json.dumps(shape[f])})" if f in shape else ""
+        if af is not None and af["sha256"] == fp["sha256"] and af["size"] == fp["size"] and af["mtime_ns"] != fp["mtime_ns"] \
+                and f not in old_schema and f.endswith(".db"):         # (-wal / -shm beside a WAL-mode file are touched by every reader)
+            bad.append(("C14:legacy-touched", f"legacy file {f} was written to (same bytes, modification time "
+                                              f"{fp['mtime_ns']} -> {af['mtime_ns']}){how}"))
         if af is None or af["sha256"] != fp["sha256"] or af["size"] != fp["size"]:
             if f in old_schema and af is not None and run.get("legacy_after_dump") is not None:
                 # pre-datastr schema: the property's "untouched" is read as "same rows" (PeeweeStorage itself
@@ -795,7 +923,12 @@ def oracle(case, run):
                 if run["legacy_after_dump"] != before:
                     bad.append(("C14:legacy-content", f"legacy file {f}: rows changed by the migration"))
                 continue
-            bad.append(("C14:legacy-bytes", f"legacy file {f} changed: {fp} -> {af}"))
+            what = ""
+            kept = os.path.join(run["xdg"], "legacy-before", f)
+            now = os.path.join(data_dir(run["xdg"]), f)
+            if af is not None and f.endswith(".db") and os.path.exists(kept) and os.path.exists(now):
+                what = " -- " + c14_gen.file_diff(kept, now)
+            bad.append(("C14:legacy-bytes", f"legacy file {f} changed{what}: {fp} -> {af}{how}"))
     mine = [s for s in run["built"] if s["testing"] == t]
     pre = in_precondition(case, run)
     if m["exc"] is not None:
@@ -996,7 +1129,7 @@ def evaluate(ck, top_cases, top_runs, have_driver, record=True):
     wires, univs = [], []
     tied = []
     for c, r, lab in zip(cases, runs, labs):
-        if case_events(c) > model_limit(ck):
+        if case_events(c) > model_limit(ck) or not c14_gen.raw_order_keeping(store_raw(c, c["new_testing"])):
             wires.append(None)
             univs.append(None)
             continue
@@ -1035,8 +1168,14 @@ def evaluate(ck, top_cases, top_runs, have_driver, record=True):
         for lim in (1000, 5000, 10000, 20000, 50000):
             if m["exc"] is None and migrated and any(len(v) > lim for _, v in m["events"]):
                 ck.count(f"migrated-bucket-larger-than-{lim}")
-        if w is None:
+        if w is None and case_events(c) > model_limit(ck):
             ck.count("oracle-only (bucket too large for the extracted model's quadratic sort)")
+        elif w is None:
+            ck.count("oracle-only (timestamp texts / ids of the rewritten legacy file sort differently from the model's rows)")
+        for f_raw in {pw_file(s["testing"]) for s in c["stores"] if s.get("raw")} & set(r["before"]):
+            ck.count("legacy files rewritten into another representation of the same content (present at a construction)")
+        for st in store_raw(c, c["new_testing"]):
+            ck.count("raw:" + st[0] + (":" + str(st[1]) if st[0] in ("bucket_empty_data", "journal", "bucket_json", "drop_index") else ""))
         ck.count("buckets-migrated", len(m.get("raw_buckets") or []))
         if m["exc"]:
             ck.count("constructor-raised:" + m["exc"])
@@ -1047,8 +1186,9 @@ def evaluate(ck, top_cases, top_runs, have_driver, record=True):
         if any(v["mtime_ns"] != r["after"].get(f, {}).get("mtime_ns") for f, v in r["before"].items()):
             ck.count("legacy-mtime-changed")
         if any(v["sha256"] != r["after"].get(f, {}).get("sha256") for f, v in r["before"].items()):
-            ck.count("legacy-bytes-changed (old-schema file upgraded by PeeweeStorage.auto_migrate)"
-                     if c["kind"] == "old-schema-legacy" else "legacy-bytes-changed")
+            ck.count("legacy-bytes-changed (old-schema file upgraded by PeeweeStorage.auto_migrate)" if c["kind"] == "old-schema-legacy"
+                     else "legacy-bytes-changed (old-schema file: missing index added by PeeweeStorage's create_table(safe=True))"
+                     if c["kind"] == "old-schema-no-index" else "legacy-bytes-changed")
         ck.note_case([c["new_testing"], c["custom"], r["listing_before"],
                       [[s["testing"], s["ops"]] for s in r["built"]]], nontrivial=(migrated and n_events > 0))
         if len(ck.samples) < 4 and migrated and 0 < n_events <= 8:
@@ -1141,6 +1281,13 @@ def shrink_case(case, tmp):
                     return fails(c)
                 st["calls"] = common.shrink_list(st["calls"], still_calls, max_steps=10)
     for si in range(len(cur["stores"])):
+        if cur["stores"][si].get("raw"):
+            def still_raw(raw, si=si):
+                c = json.loads(json.dumps(cur))
+                c["stores"][si]["raw"] = raw
+                return fails(c)
+            cur["stores"][si]["raw"] = common.shrink_list(cur["stores"][si]["raw"], still_raw, max_steps=8)
+    for si in range(len(cur["stores"])):
         def still(ops, si=si):
             c = json.loads(json.dumps(cur))
             c["stores"][si]["ops"] = ops
@@ -1184,7 +1331,7 @@ def main(argv=None):
     n_random = 110 if ck.tier == "quick" else 6000
     # large buckets first (their interpreters run beside the many small cases), then the boundary corpus, the
     # sessions (several constructions in one interpreter) and the random stores
-    cases = (big_cases(ck.rng, ck.tier) + corpus(ck.rng) + session_corpus(ck.rng)
+    cases = (big_cases(ck.rng, ck.tier) + corpus(ck.rng) + raw_corpus(ck.rng) + session_corpus(ck.rng)
              + session_cases(ck.rng, 14 if ck.tier == "quick" else 600)
              + use_corpus(ck.rng) + session_cases(ck.rng, 16 if ck.tier == "quick" else 600, use=True)
              + random_cases(ck.rng, n_random))
